@@ -1,1 +1,51 @@
-fn main(){}
+//! refclass-dump FILE.class            normalised listing (see refclass::dump)
+//! refclass-dump --validate FILE.class validator messages
+//! refclass-dump --gen SEED OUT.class  write a generated class (random layout)
+//! refclass-dump --debug FILE.class    `{:#?}` of the Sem
+
+use refclass::*;
+
+fn main() {
+    let args: Vec<String> = std::env::args().skip(1).collect();
+    let die = |m: &str| -> ! {
+        eprintln!("{}", m);
+        std::process::exit(2)
+    };
+    match args.as_slice() {
+        [f] => {
+            let b = std::fs::read(f).unwrap_or_else(|e| die(&format!("{}: {}", f, e)));
+            match parse(&b) {
+                Ok(s) => print!("{}", dump::dump(&s)),
+                Err(e) => die(&format!("{}: {}", f, e)),
+            }
+        }
+        [o, f] if o == "--debug" => {
+            let b = std::fs::read(f).unwrap_or_else(|e| die(&format!("{}: {}", f, e)));
+            match parse(&b) {
+                Ok(s) => println!("{:#?}", s),
+                Err(e) => die(&format!("{}: {}", f, e)),
+            }
+        }
+        [o, f] if o == "--validate" => {
+            let b = std::fs::read(f).unwrap_or_else(|e| die(&format!("{}: {}", f, e)));
+            match validate(&b) {
+                Ok(()) => println!("ok"),
+                Err(v) => {
+                    for m in v {
+                        println!("{}", m);
+                    }
+                    std::process::exit(1);
+                }
+            }
+        }
+        [o, seed, out] if o == "--gen" => {
+            let seed: u64 = seed.parse().unwrap_or_else(|_| die("bad seed"));
+            let mut rng = SplitMix::new(seed);
+            let sem = gen_class(&mut rng, &GenCfg::default());
+            let layout = gen_layout(&mut rng);
+            let enc = encode(&sem, &layout).unwrap_or_else(|e| die(&e));
+            std::fs::write(out, enc.bytes).unwrap_or_else(|e| die(&e.to_string()));
+        }
+        _ => die("usage: refclass-dump [--validate|--debug] FILE.class | --gen SEED OUT.class"),
+    }
+}
